@@ -283,6 +283,38 @@ def bitReaderVlq (buf : List Nat) : Except Err (Option (Nat × Nat)) := bitReade
 /-- two's complement reading of a `u64` pattern -/
 def i64OfBits (u : Nat) : Int := (BitVec.ofNat 64 u).toInt
 
+
+/-- header checks of `DeltaBitPackDecoder::<Int64Type>::set_data`
+(`parquet/src/encodings/decoding.rs`): four varints through `BitReader::get_vlq_int`
+(so an over-long varint panics here too), sign checks by `try_into::<usize>()`, and the
+block-shape checks.  `ok (block_size, mini_blocks, values_left, first_value)`. -/
+def deltaHeader (buf : List Nat) : Except Err (Nat × Nat × Nat × Int) :=
+  let next (bs : List Nat) : Except Err (Nat × List Nat) :=
+    match bitReaderVlq bs with
+    | .error e => .error e
+    | .ok none => .error .eof
+    | .ok (some (w, n)) => .ok (w, bs.drop n)
+  match next buf with
+  | .error e => .error e
+  | .ok (bsz, r1) =>
+    if i64OfBits bsz < 0 then .error .negative else
+    match next r1 with
+    | .error e => .error e
+    | .ok (mb, r2) =>
+      if i64OfBits mb < 0 then .error .negative else
+      if mb = 0 then .error .malformed else
+      match next r2 with
+      | .error e => .error e
+      | .ok (vl, r3) =>
+        if i64OfBits vl < 0 then .error .negative else
+        match next r3 with
+        | .error e => .error e
+        | .ok (fv, _) =>
+          if bsz % 128 ≠ 0 then .error .malformed
+          else if bsz % mb ≠ 0 then .error .malformed
+          else if (bsz / mb) % 32 ≠ 0 then .error .malformed
+          else .ok (bsz, mb, vl, zigzagInt fv)
+
 /-! ## Arrow IPC buffer slicing (`arrow-ipc/src/reader.rs::read_buffer`) -/
 
 /-- `i64 as usize` -/
